@@ -37,6 +37,12 @@ def build(rng, root):
         if n["kind"] != "symlink":
             n["owner"] = (rng.choice([0, 1, 1, 7]), rng.choice([0, 3]))
     tree.materialise(root, nodes)
+    if shape in ("many", "two"):
+        import zipfile
+        os.makedirs(os.path.join(root, "zz"), exist_ok=True)
+        with zipfile.ZipFile(os.path.join(root, "zz", "pack.zip"), "w") as z:
+            for k in range(rng.randint(1, 6)):
+                z.writestr("m%d.txt" % k, b"y" * rng.choice([0, 3, 11, 250, 4000]))
     return shape
 
 
@@ -68,7 +74,13 @@ def run_job(job):
             else:
                 fns = rng.sample(model.AGGS, rng.randint(1, 5))
             # the multiset, from fselect itself
-            q0 = "%s from t%s into list" % (inner, wtxt)
+            frm = "t"
+            if inner in ("size", "length(name)", "size + 1", "length(ext)") and os.path.isdir(os.path.join(root, "zz")) and rng.random() < 0.4:
+                frm = rng.choice(["t archives", "t/zz archives, t maxdepth 1", "t dfs archives"])
+            elif rng.random() < 0.15:
+                frm = rng.choice(["t maxdepth 1, t mindepth 2", "t dfs", "t mindepth 2"])
+            res.cover("from_clauses", frm)
+            q0 = "%s from %s%s into list" % (inner, frm, wtxt)
             r0 = run(q0)
             if r0.verdict != "ok" or r0.rc != 0 or r0.err:
                 if r0.verdict == "ok":
@@ -88,7 +100,7 @@ def run_job(job):
                 name = rng.choice([name, name.upper()])
                 arg = "*" if (fn == "count" and rng.random() < 0.6) else inner
                 cols.append("%s(%s)" % (name, arg))
-            q = "%s from t%s into list" % (", ".join(cols), wtxt)
+            q = "%s from %s%s into list" % (", ".join(cols), frm, wtxt)
             r = run(q)
             ctx = {"query": q, "row_query": q0, "values": values[:50], "result": r.brief()}
             if r.verdict != "ok":
